@@ -258,7 +258,7 @@ def gen_json(s):
 
 def main(tier):
     t0 = time.time()
-    proof = common.proof_obligations("C08", modules=["EduceModel.Props.C08", "EduceModel.Props.E2E"])
+    proof = common.proof_obligations("C08", modules=["EduceModel.Props.C08", "EduceModel.Props.E2E", "EduceModel.Props.Profile"])
     n_defs = 300 if tier == "quick" else 4000
     tie = b1.run_b1("C08", P(), n_defs, 1, common.seed())
     return common.finish("C08", tier, t0, proof, tie)
